@@ -180,11 +180,14 @@ func routeOf(backendID string) *route {
 // vhostKey names the finding: the known mechanisms get their own narrow keys.
 func vhostKey(urlHasHost bool, laterH2Stream bool, lines []hdrLine) func(seenRec, *backend) string {
 	return func(rec seenRec, b *backend) string {
+		if r := routeOf(b.ID); r != nil && r.Group != "" {
+			// explained by the group defect iff the request legitimately passes the check of the group's registered (first) member
+			if first, differ := groupFirstCred(r.Group); differ && (!first.protected() || carries(lines, first)) {
+				return "vhost-http-group-member-credentials-not-enforced"
+			}
+		}
 		if laterH2Stream {
 			return "vhost-http-h2c-stream-not-checked"
-		}
-		if r := routeOf(b.ID); r != nil && r.Group != "" && groupCredsDiffer(r.Group) {
-			return "vhost-http-group-member-credentials-not-enforced"
 		}
 		if urlHasHost {
 			pa, _ := firstLine(lines, "Proxy-Authorization")
@@ -198,8 +201,11 @@ func vhostKey(urlHasHost bool, laterH2Stream bool, lines []hdrLine) func(seenRec
 	}
 }
 
-func groupCredsDiffer(group string) bool {
+// groupFirstCred returns the credentials of the group's first registered member and whether some
+// registered member has different ones.
+func groupFirstCred(group string) (cred, bool) {
 	var first *cred
+	differ := false
 	for _, r := range allRoutes {
 		if r.Group != group || (r.MayBeRefused && !registered[r.Name]) {
 			continue
@@ -208,10 +214,13 @@ func groupCredsDiffer(group string) bool {
 			c := r.Cred
 			first = &c
 		} else if r.Cred != *first {
-			return true
+			differ = true
 		}
 	}
-	return false
+	if first == nil {
+		return cred{}, false
+	}
+	return *first, differ
 }
 
 func runVhost(c *h.Case, s *vhostSpec) {
